@@ -1,15 +1,13 @@
-\* reference configuration (quick tier); verif/checks/c17.py generates the per-domain variants
 SPECIFICATION Spec
 CONSTANTS
   MaxN = 24
   MaxC = 7
-  MutN = 3
-  MutC = 2
+  MutN = 1
+  MutC = 1
   ShortLen = 4
   MaxEntries = 2
   Registered = {"gzip", "x-lz4", "lz4"}
-  StreamDomain = "short"
+  StreamDomain = "mutant"
 INVARIANT Refines
 INVARIANT ReadBound
 INVARIANT TypeOK
-PROPERTY Terminates
